@@ -115,7 +115,14 @@ def units(w):
             return call("FuncSum", it, m, ["list", "ignore"]), {}, {"items": items, "ig": ig}
 
         def post(it, c, o):
-            it.check("post:returns", o.kind == "return")
+            if o.kind == "raise":
+                # only an int beyond the double range meeting a decimal may fail (language error)
+                big = z3.BoolVal(False)
+                for k, v in zip(kinds, c["items"]):
+                    if k == "i":
+                        big = z3.Or(big, zi(v.fields["value"]) >= 2 ** 1023, zi(v.fields["value"]) <= -(2 ** 1023))
+                it.check("raises:only-int-beyond-double-range-with-decimals", z3.And("d" in kinds, big))
+                return
             anydec = "d" in kinds
             total = z3.RealVal(0)
             has_dec = z3.BoolVal(False)
